@@ -123,7 +123,8 @@ def get_partition_spec(tree: A) -> A:
       if hasattr(x, 'sharding') and x.sharding:
         if core_spmd.get_logical_axis_rules() or hasattr(x, 'sharding_rules'):
           context_rules = core_spmd.get_logical_axis_rules()
-          local_rules = getattr(x, 'sharding_rules', ())
+          # (a bridged LogicallyPartitioned without rules stores None)
+          local_rules = getattr(x, 'sharding_rules', None) or ()
           rules = core_spmd.composite_rules(context_rules, local_rules)
           return x.replace(
               PartitionSpec(*core_spmd.from_sharding_rules(x.sharding, rules))
